@@ -15,7 +15,7 @@
 (***************************************************************************)
 EXTENDS Projective, TLC, FiniteSets
 
-VARIABLES p, done
+VARIABLES mP, mDone
 
 FP    == 0..(P - 1)
 Aff   == TLCEval({<<x, y>> \in FP \X FP : (y * y) % P = (x * x * x + B) % P})
@@ -34,24 +34,24 @@ RepsOf(a) == IF IsInf(a) THEN {<<0, y, 0>> : y \in 1..(P - 1)}
 
 (* two levels so that TLC's workers share the load: one initial state per abstract point, *)
 (* one successor per representative of it                                                *)
-Init == p \in {FromAff(a) : a \in Aff \cup {Inf}} /\ done = FALSE
-Next == done = FALSE /\ done' = TRUE /\ p' \in RepsOf(Aff0(p))
+Init == mP \in {FromAff(a) : a \in Aff \cup {Inf}} /\ mDone = FALSE
+Next == mDone = FALSE /\ mDone' = TRUE /\ mP' \in RepsOf(Aff0(mP))
 
 GroupLaw ==
   /\ Cardinality(Aff) + 1 = N                                     \* the parameter file's n is the group order
-  /\ ValidR(p)
-  /\ ProjValid(p)
-  /\ LET a == Aff0(p) IN
-     /\ ToAff(p) = a
+  /\ ValidR(mP)
+  /\ ProjValid(mP)
+  /\ LET a == Aff0(mP) IN
+     /\ ToAff(mP) = a
      /\ \A q \in QSet :
-          LET b == Aff0(q)  r == Alg7(p, q) IN
+          LET b == Aff0(q)  r == Alg7(mP, q) IN
           /\ ValidR(r) /\ Aff0(r) = PAdd(a, b)
           /\ ((r[3] = 0) <=> IsInf(PAdd(a, b)))
-          /\ (ProjEqualAlg(p, q) <=> a = b)
-          /\ (q[3] # 0 => LET m == Alg8(p, b[1], b[2]) IN ValidR(m) /\ Aff0(m) = PAdd(a, b))
-     /\ LET d == Alg9(p) IN ValidR(d) /\ Aff0(d) = PDbl(a)
-     /\ LET n == NegAlg(p) IN ValidR(n) /\ Aff0(n) = PNeg(a)
-     /\ LET s == RescaleAlg(p) IN ValidR(s) /\ Aff0(s) = a /\ s = FromAff(a)   \* the rescaled form is canonical
-     /\ ((p[3] = 0) <=> IsInf(a))
+          /\ (ProjEqualAlg(mP, q) <=> a = b)
+          /\ (q[3] # 0 => LET m == Alg8(mP, b[1], b[2]) IN ValidR(m) /\ Aff0(m) = PAdd(a, b))
+     /\ LET d == Alg9(mP) IN ValidR(d) /\ Aff0(d) = PDbl(a)
+     /\ LET n == NegAlg(mP) IN ValidR(n) /\ Aff0(n) = PNeg(a)
+     /\ LET s == RescaleAlg(mP) IN ValidR(s) /\ Aff0(s) = a /\ s = FromAff(a)   \* the rescaled form is canonical
+     /\ ((mP[3] = 0) <=> IsInf(a))
      /\ ValidPoint(a)
 =============================================================================
